@@ -246,6 +246,18 @@ def run(ctx):
          "child-h(base-h)|body", "block-override-with-parent"),
         ({"/a.html": "${next.body()}|${self.uri}|${next.uri}", "/b.html": '<%inherit file="/a.html"/>${next.body()}[${local.uri} ${parent.uri} ${next.uri}]',
           "/c.html": '<%inherit file="/b.html"/>c[${local.uri} ${parent.uri}]'}, "c[/c.html /b.html][/b.html /a.html /c.html]|/c.html|/b.html", "uris-adjacent"),
+        # shapes of blocks: side by side on one line, buffered, in a template whose <%page> has a ** catch-all of its own
+        ({"/c.html": "[<%block>A</%block><%block>B</%block>]"}, "[AB]", "anonymous-same-line"),
+        ({"/c.html": "[<%block>A<%block>B</%block></%block>]"}, "[AB]", "anonymous-nested-same-line"),
+        ({"/c.html": 'x<%block buffered="True">A</%block>y'}, "xAy", "anonymous-buffered"),
+        ({"/c.html": 'x<%block name="b" buffered="True">A</%block>y'}, "xAy", "named-buffered"),
+        ({"/b.html": 'x<%block name="b" buffered="True" filter="h">A<</%block>y${next.body()}', "/c.html": '<%inherit file="/b.html"/><%block name="b">C<</%block>'}, "xC<y", "named-buffered-filtered-override"),
+        ({"/c.html": '<%page args="a=1, **kw"/>[${a}<%block name="b">B</%block>${sorted(kw)}]'}, "[1B[]]", "named-block-with-page-kw"),
+        ({"/b.html": '<%page args="**kw"/>(<%block name="b">base</%block>${next.body()})', "/c.html": '<%inherit file="/b.html"/><%block name="b">child</%block>'}, "(child)", "named-block-with-page-kw-inherited"),
+        # defs written inside a <%namespace> tag of the base-most template see that template as local
+        ({"/b.html": '<%namespace name="n"><%def name="w()">${local.uri}</%def></%namespace>${n.w()}|${next.body()}', "/c.html": '<%inherit file="/b.html"/>c'}, "/b.html|c", "namespace-def-local-in-base"),
+        ({"/a.html": "${next.body()}", "/b.html": '<%inherit file="/a.html"/><%namespace name="n"><%def name="w()">${local.uri}</%def></%namespace>${n.w()}|${next.body()}',
+          "/c.html": '<%inherit file="/b.html"/>c'}, "/b.html|c", "namespace-def-local-in-middle"),
     ]
     for files, want, tag in cases:
         ctx.evaluations += 1
@@ -265,6 +277,6 @@ def run(ctx):
     return ctx.finish(
         rule="chains of 1..5 templates; each declares 0-3 of 4 defs and 0-3 of 4 named blocks (in the body or nested in another block), bodies with text, calls of "
              "self / next / parent / local members and next.body(); blocks calling defs and the parent's version; defs calling higher-numbered defs; every third chain "
-             "with expression inherit targets; markers written by every member; 9 fixed cases",
+             "with expression inherit targets; markers written by every member; fixed cases for the shapes the generator does not write (arguments of body(), module attributes, where a named block may stand, anonymous blocks side by side, buffered blocks, a page signature with its own ** catch-all, defs of inline namespaces)",
         assumptions=[],
     )
